@@ -316,6 +316,19 @@ def handle (st : St) (args : List String) : St × String :=
         ({ book := b, pkg := pkg, dead := false }, s!"ok {status b} open={if opened then 1 else 0} ## pkgok={if pkgOk pkg then 1 else 0}")
       | _, _ => ({ dead := true }, "unmodelled")
     else ({ dead := true }, "bad-op")
+  | ["cyc", _variant, w, x] =>
+    -- a package whose relationship graph may be cyclic: does the model's reader open it?  (`none` = the recursion
+    -- of `read_rawrelationships` does not end / a target is missing; the state is left alone)
+    if w.startsWith "W=" ∧ x.startsWith "X=" then
+      match (splitList (w.drop 2).toString ";").mapM parseHexName, (splitList (x.drop 2).toString ";").mapM parsePkgPart with
+      | some files, some parts =>
+        let pkg : Pkg := { parts := parts, sheets := files.map (fun f => ([], f)) }
+        let opened : Bool := (lazyOpen pkg : Option (Book Cnt)).isSome
+        -- informational: the same with ten times the fuel (`C11_read_closure_fuel` / `_cyclic`: no difference)
+        let more : Bool := files.all (fun f => (readClosure pkg (10 * pkg.fuel) (.rels f)).isSome)
+        (st, s!"ok open={if opened then 1 else 0} ## morefuel={if more then 1 else 0}")
+      | _, _ => (st, "unmodelled")
+    else (st, "bad-op")
   | op :: rest =>
     if st.dead then (st, "unmodelled")
     else
